@@ -7,6 +7,8 @@ def run(ctx):
     bc.exhaustive(ctx, ["Batch_mc%d.cfg" % n, "Batch_mc2r.cfg"])
     binary = ctx.build_driver("batch")
     cases, nviol = bc.replay_cases(ctx, "Batch_gen%d.cfg" % n, binary, focus={"reads", "panic"})
+    # the same with an application's item middleware that retries a failed item once (outcome retriedSuccess)
+    bc.replay_cases(ctx, "Batch_gen_retry.cfg", binary, focus={"reads", "panic"}, env={"VERIF_RETRY": 1})
     total = 0
     logs = []
     rounds = 3 if ctx.quick else 12
